@@ -77,7 +77,7 @@ func genCases(g *fw.GenCtx) {
 			g.Emit("single", fcase{Seed: g.Rand.Int63(), N: 4, Rows: g.Pick(2, 6), Seed2: g.Rand.Int63(), Single: true})
 		}
 	}
-	n := g.Pick(120, 4000)
+	n := g.Pick(700, 4000)
 	for k := 0; k < n; k++ {
 		g.Emit("gen", fcase{Seed: g.Rand.Int63(), N: 12, Rows: g.Pick(6, 12), Seed2: g.Rand.Int63()})
 	}
@@ -843,7 +843,7 @@ func fromProgram(r *rand.Rand, p *gen.Program, docOnly bool, single int) input {
 			boundary := strings.HasSuffix(sl, "#0") || sl == "Block#close" || strings.HasSuffix(sl, "#end") && sl != "DirectorBackendObject#end"
 			inline = gap > 0 && !boundary
 		}
-		if inline && c.Style != "/*" {
+		if inline && c.Style != "/*" && c.Style != "/**" {
 			if allowInlineLine {
 				in.inlineLine = true
 			} else {
